@@ -24,7 +24,8 @@ inductive Rd where
   deriving DecidableEq, Repr
 
 /-- why `match_input` returned: it matched; `count > MAX_CONTEXT_LENGTH`; the skipping iterator found no (matching) glyph;
-    one of the three `return false` of the ligature-component rules (which do NOT write `*end_position`) -/
+    one of the two `return false` of the ligature-component rules (`*end_position` = the declining glyph + 1 since the
+    repair "fix: match_input left end_position unset …"; it stayed 0 before) -/
 inductive Why where
   | matched | tooLong | iter | ligComp
   deriving DecidableEq, Repr
@@ -107,7 +108,7 @@ def matchInputI.loop (c : Ctx) (firstLigId firstLigComp : Nat) (it : It) (positi
       let this ← get c.buf.info it.idx
       let (lb, rs2) ← ligStepI c it firstLigId firstLigComp this ligbase
       match lb with
-      | none => pure ⟨{ ok := false, endPos := 0, positions := positions, totalComps := total }, rs.map .inp ++ rs2, .ligComp⟩
+      | none => pure ⟨{ ok := false, endPos := it.idx + 1, positions := positions, totalComps := total }, rs.map .inp ++ rs2, .ligComp⟩
       | some lb => do
           let r ← matchInputI.loop c firstLigId firstLigComp it positions (total + ligNumComps this) lb (k + 1) rest
           pure { r with reads := rs.map .inp ++ rs2 ++ r.reads }
@@ -548,17 +549,16 @@ theorem ligStepI_span (c : Ctx) (it : It) (fl fc : Nat) (this : Info) (lb : Nat)
   · split at h <;>
       (simp only [pure, Except.pure, Except.ok.injEq, Prod.mk.injEq] at h; obtain ⟨_, h2⟩ := h; subst h2; simp)
 
-/-- what a read of `match_input` (started with the iterator at `lo`) may be: an in-buffer glyph after `lo`, below `len`, and
-    — unless the matcher returned through the ligature-component rules — below the reported `end_position`; or an out-buffer
-    glyph of the lig-base scan -/
+/-- what a read of `match_input` (started with the iterator at `lo`) may be: an in-buffer glyph after `lo`, below `len` and
+    below the reported `end_position`; or an out-buffer glyph of the lig-base scan -/
 def RdOk (c : Ctx) (lo : Nat) (R : MatchInI) (x : Rd) : Prop :=
-  (∃ i, x = .inp i ∧ lo < i ∧ i < c.buf.len ∧ (R.why ≠ .ligComp → i < R.r.endPos)) ∨
+  (∃ i, x = .inp i ∧ lo < i ∧ i < c.buf.len ∧ i < R.r.endPos) ∨
   (∃ j, x = .lig j ∧ j < c.buf.outLen)
 
 theorem matchInputI.loop_span (c : Ctx) (fl fc : Nat) : ∀ (rest : Nat) (it : It) (p : List Nat) (t lb k : Nat)
     (R : MatchInI), matchInputI.loop c fl fc it p t lb k rest = .ok R → it.bufLen = c.buf.len → it.idx < c.buf.len →
-    (R.r.ok = true ↔ R.why = .matched) ∧ R.why ≠ .tooLong ∧ (R.why = .ligComp → R.r.endPos = 0) ∧
-    (R.why ≠ .ligComp → it.idx < R.r.endPos ∧ R.r.endPos ≤ c.buf.len) ∧
+    (R.r.ok = true ↔ R.why = .matched) ∧ R.why ≠ .tooLong ∧
+    it.idx < R.r.endPos ∧ R.r.endPos ≤ c.buf.len ∧
     (∀ x ∈ R.reads, RdOk c it.idx R x) := by
   intro rest
   induction rest with
@@ -566,7 +566,7 @@ theorem matchInputI.loop_span (c : Ctx) (fl fc : Nat) : ∀ (rest : Nat) (it : I
     intro it p t lb k R h hbl hidx
     simp only [matchInputI.loop, pure, Except.pure, Except.ok.injEq] at h
     subst h
-    refine ⟨by simp, by simp, by simp, fun _ => ⟨by simp, by simp; omega⟩, by simp⟩
+    refine ⟨by simp, by simp, by simp, by simp; omega, by simp⟩
   | succ n ih =>
     intro it p t lb k R h hbl hidx
     rw [matchInputI.loop] at h
@@ -582,11 +582,11 @@ theorem matchInputI.loop_span (c : Ctx) (fl fc : Nat) : ∀ (rest : Nat) (it : I
         simp only [Bool.not_false, if_true, pure, Except.pure, Except.ok.injEq] at h
         subst h
         have hu := b6 rfl
-        refine ⟨by simp, by simp, by simp, fun _ => ⟨by simp; omega, by simp; omega⟩, ?_⟩
+        refine ⟨by simp, by simp, by simp; omega, by simp; omega, ?_⟩
         intro x hx
         obtain ⟨i, hi, rfl⟩ := List.mem_map.mp hx
         have := b4 i hi
-        exact Or.inl ⟨i, rfl, by omega, by omega, fun _ => by simp; omega⟩
+        exact Or.inl ⟨i, rfl, by omega, by omega, by simp; omega⟩
       | true =>
         have hlt : it.idx < it'.idx := (b4 _ (b5 rfl)).1
         simp only [Bool.not_true, Bool.false_eq_true, if_false] at h
@@ -604,12 +604,12 @@ theorem matchInputI.loop_span (c : Ctx) (fl fc : Nat) : ∀ (rest : Nat) (it : I
             | none =>
               simp only [pure, Except.pure, Except.ok.injEq] at h
               subst h
-              refine ⟨by simp, by simp, by simp, by simp, ?_⟩
+              refine ⟨by simp, by simp, by simp; omega, by simp; omega, ?_⟩
               intro x hx
               rcases List.mem_append.mp hx with hx | hx
               · obtain ⟨i, hi, rfl⟩ := List.mem_map.mp hx
                 have := b4 i hi
-                exact Or.inl ⟨i, rfl, by omega, by omega, by simp⟩
+                exact Or.inl ⟨i, rfl, by omega, by omega, by simp; omega⟩
               · exact Or.inr (hs2 x hx)
             | some lb' =>
               simp only [] at h
@@ -619,32 +619,31 @@ theorem matchInputI.loop_span (c : Ctx) (fl fc : Nat) : ∀ (rest : Nat) (it : I
                 simp only [hr, pure, Except.pure, Except.ok.injEq] at h
                 subst h
                 obtain ⟨c1, c2, c3, c4, c5⟩ := ih _ _ _ _ _ _ hr (by rw [b1, hbl]) hi'
-                refine ⟨c1, c2, c3, fun hw => ⟨by have := c4 hw; simp only; omega, (c4 hw).2⟩, ?_⟩
+                refine ⟨c1, c2, by simp only; omega, c4, ?_⟩
                 intro x hx
                 simp only at hx
                 rcases List.mem_append.mp hx with hx | hx
                 · rcases List.mem_append.mp hx with hx | hx
                   · obtain ⟨i, hi, rfl⟩ := List.mem_map.mp hx
                     have := b4 i hi
-                    exact Or.inl ⟨i, rfl, by omega, by omega, fun hw => by have := c4 hw; simp only; omega⟩
+                    exact Or.inl ⟨i, rfl, by omega, by omega, by simp only; omega⟩
                   · exact Or.inr (hs2 x hx)
                 · rcases c5 x hx with ⟨i, e1, e2, e3, e4⟩ | hj
                   · exact Or.inl ⟨i, e1, by omega, e3, e4⟩
                   · exact Or.inr hj
 
-/-- what a read of `match_input` may be: an in-buffer glyph of `[idx, len)` that — unless the matcher returned through the
-    ligature-component rules — lies below the reported `end_position`; or an out-buffer glyph of the lig-base scan -/
+/-- what a read of `match_input` may be: an in-buffer glyph of `[idx, len)` below the reported `end_position`; or an
+    out-buffer glyph of the lig-base scan -/
 def Covered (c : Ctx) (R : MatchInI) (x : Rd) : Prop :=
-  (∃ i, x = .inp i ∧ c.buf.idx ≤ i ∧ i < c.buf.len ∧ (R.why ≠ .ligComp → i < R.r.endPos)) ∨
+  (∃ i, x = .inp i ∧ c.buf.idx ≤ i ∧ i < c.buf.len ∧ i < R.r.endPos) ∨
   (∃ j, x = .lig j ∧ j < c.buf.outLen)
 
-/-- **the reads of match_input lie in `[idx, end_position)`** (and in the out-buffer for the lig-base scan); the three
-    ligature-component `return false` paths report `end_position = 0` (never written) -/
+/-- **the reads of match_input lie in `[idx, end_position)`** (and in the out-buffer for the lig-base scan), on every path that
+    read anything: success, iterator failure, ligature-component failure -/
 theorem matchInputI_span (c : Ctx) (n : Nat) (fn : Nat → Nat → Bool) (p : List Nat) (R : MatchInI)
     (h : matchInputI c n fn p = .ok R) (hidx : c.buf.idx < c.buf.len) :
     (R.r.ok = true ↔ R.why = .matched) ∧ (R.why = .tooLong → R.reads = [] ∧ R.r.endPos = 0) ∧
-    (R.why = .ligComp → R.r.endPos = 0) ∧
-    (R.why = .matched ∨ R.why = .iter → c.buf.idx < R.r.endPos ∧ R.r.endPos ≤ c.buf.len) ∧
+    (R.why ≠ .tooLong → c.buf.idx < R.r.endPos ∧ R.r.endPos ≤ c.buf.len) ∧
     (∀ x ∈ R.reads, Covered c R x) := by
   unfold matchInputI at h
   by_cases hc : n + 1 > MAX_CONTEXT_LENGTH
@@ -667,28 +666,24 @@ theorem matchInputI_span (c : Ctx) (n : Nat) (fn : Nat → Nat → Bool) (p : Li
         | ok r =>
           simp only [] at h
           obtain ⟨c1, c2, c3, c4, c5⟩ := matchInputI.loop_span _ _ _ _ _ _ _ _ _ _ hr i2 (by simp only [i1]; exact hidx)
-          simp only [i1] at c4 c5
+          simp only [i1] at c3 c5
           have key : ∀ R' : MatchInI, R'.why = r.why → R'.r.endPos = r.r.endPos → R'.r.ok = r.r.ok →
               R'.reads = .inp c.buf.idx :: r.reads →
               (R'.r.ok = true ↔ R'.why = .matched) ∧ (R'.why = .tooLong → R'.reads = [] ∧ R'.r.endPos = 0) ∧
-              (R'.why = .ligComp → R'.r.endPos = 0) ∧
-              (R'.why = .matched ∨ R'.why = .iter → c.buf.idx < R'.r.endPos ∧ R'.r.endPos ≤ c.buf.len) ∧
+              (R'.why ≠ .tooLong → c.buf.idx < R'.r.endPos ∧ R'.r.endPos ≤ c.buf.len) ∧
               (∀ x ∈ R'.reads, Covered c R' x) := by
             intro R' e1 e2 e3 e4
             rw [e1, e2, e3, e4]
-            refine ⟨c1, fun hw => absurd hw c2, c3, ?_, ?_⟩
-            · intro hw
-              apply c4
-              rcases hw with hw | hw <;> simp [hw]
-            · intro x hx
-              unfold Covered
-              rw [e1, e2]
-              rcases List.mem_cons.mp hx with hx | hx
-              · subst hx
-                exact Or.inl ⟨_, rfl, Nat.le_refl _, hidx, fun hw => (c4 hw).1⟩
-              · rcases c5 x hx with ⟨i, a1, a2, a3, a4⟩ | hj
-                · exact Or.inl ⟨i, a1, by omega, a3, a4⟩
-                · exact Or.inr hj
+            refine ⟨c1, fun hw => absurd hw c2, fun _ => ⟨c3, c4⟩, ?_⟩
+            intro x hx
+            unfold Covered
+            rw [e2]
+            rcases List.mem_cons.mp hx with hx | hx
+            · subst hx
+              exact Or.inl ⟨_, rfl, Nat.le_refl _, hidx, c3⟩
+            · rcases c5 x hx with ⟨i, a1, a2, a3, a4⟩ | hj
+              · exact Or.inl ⟨i, a1, by omega, a3, a4⟩
+              · exact Or.inr hj
           split at h
           · simp only [pure, Except.pure, Except.ok.injEq] at h
             subst h
